@@ -392,6 +392,43 @@ func runC08(c *Ctx) {
 			}
 		}
 		c.Floor("O6", "CONST memory scalings", n, 2)
+		// … and BOTH memory quantities handed to the queue's attributes are scaled ones (quota and limit): pod requests,
+		// node memory and the queue counters are in bytes
+		ns := 0
+		for _, in := range instrsIn(fn, func(in ssa.Instruction) bool {
+			cc, ok := in.(*ssa.Call)
+			if !ok {
+				return false
+			}
+			for _, a := range cc.Call.Args {
+				if k, isK := a.(*ssa.Const); isK && k.Value != nil && strings.HasSuffix(typeKey(k.Type()), "resource_share.ResourceName") && strings.Contains(strings.ToLower(k.Value.ExactString()), "mem") {
+					return true
+				}
+			}
+			return false
+		}) {
+			call := in.(*ssa.Call)
+			for _, a := range call.Call.Args {
+				t := termOf(a)
+				fld := ""
+				t.contains(func(x *Term) bool {
+					if x.Op == "field" && (x.Name == "Quota" || x.Name == "Limit") && strings.Contains(x.String(), "Memory") {
+						fld = x.Name
+					}
+					return false
+				})
+				if fld == "" {
+					continue
+				}
+				ns++
+				scaled := t.contains(func(x *Term) bool {
+					return x.Op == "bin" && x.Name == "*" && (strings.HasPrefix(x.Args[1].String(), "const:1000000") || strings.HasPrefix(x.Args[0].String(), "const:1000000") || strings.Contains(x.String(), "const:1e+06"))
+				})
+				c.Check(scaled, "O6", "CONST", funcKey(fn)+": the memory "+fld+" given to the queue is in bytes", instrPos(in), trunc(t.String(), 100),
+					"the queue's memory "+fld+" is handed on unscaled (API unit: 10^6 bytes) while requests and usage are in bytes: a finite memory "+fld+" of N is enforced as N bytes — every workload of that queue sub-tree that requests memory is refused")
+			}
+		}
+		c.Floor("O6", "CONST memory quantities handed to the queue", ns, 2)
 	}
 	_ = ast.NewIdent
 }
